@@ -150,11 +150,11 @@ def check_case(case):
     outcomes = set()
     msets = MERCHANT_SETS if case.get("merchants") is None else [tuple(case["merchants"])]
     for mset in msets:
-        evals += 1
         sub = {"views": list(seq), "merchants": list(mset)}
         try:
             mem, totals, mtot = real_membership(text, mset)
         except Exception as e:  # noqa
+            evals += 1
             viol.append({"kind": "classification-raises", "detail": {"views_file": text, "merchants": [HIST[i][0] for i in mset], "exc": f"{type(e).__name__}: {e}"}, "case": sub})
             continue
         counts = {}
@@ -165,6 +165,7 @@ def check_case(case):
             for m, want in exp.items():
                 if want is None:
                     continue
+                evals += 1                      # one judged (view, merchant) pair
                 counts[m] = counts.get(m, 0) + (1 if m in got else 0)
                 if (m in got) != want:
                     viol.append({"kind": "membership-differs-from-filter", "detail": {"view": vname, "filter": FILTERS[fi][2], "merchant": m, "expected_member": want,
